@@ -561,3 +561,47 @@ def fragEs : List Expr → Bool
 end
 
 end Malt.Anf
+
+namespace Malt.Anf
+open Malt.Py
+
+/-! ### The hypothesis of `C18_sem_partial` (stricter than `hazards = []`)
+For every node and every operand `cᵢ`: either no later operand is overtaken by anything (`notMoved`: visiting
+it creates no statement, and it is hoisted only if `cᵢ` is), or `cᵢ` is an *atom that stays in place* — a
+variable or an unselected constant — which no later operand rebinds. -/
+def atomStay (cfg : Config) (pk fld : String) : Expr → Bool
+  | .name i s c => okChild cfg pk fld (.name i s c)
+  | .const i k r => okChild cfg pk fld (.const i k r)
+  | _ => false
+
+def notMoved (cfg : Config) (pk : String) (hoistedI : Bool) (kj : String × Expr) : Bool :=
+  quiet cfg kj.2 && (okChild cfg pk kj.1 kj.2 || hoistedI)
+
+def pairOkT (cfg : Config) (pk : String) (ki : String × Expr) (rest : List (String × Expr)) : Bool :=
+  rest.all (notMoved cfg pk (!okChild cfg pk ki.1 ki.2))
+    || (atomStay cfg pk ki.1 ki.2 && disjoint (namesE ki.2) (writesEs (rest.map (·.2))))
+
+def pairsOkT (cfg : Config) (pk : String) : List (String × Expr) → Bool
+  | [] => true
+  | k :: rest => pairOkT cfg pk k rest && pairsOkT cfg pk rest
+
+mutual
+/-- no evaluation-order hazard inside a fragment expression -/
+def okT (cfg : Config) : Expr → Bool
+  | .attr _ v _ _ => okT cfg v
+  | .subscript _ v s _ => okT cfg v && okT cfg s && pairsOkT cfg "Subscript" [("value", v), ("slice", s)]
+  | .call _ f as _ => okT cfg f && okTs cfg as && pairsOkT cfg "Call" (("func", f) :: tag "args" as)
+  | .unary _ _ e => okT cfg e
+  | .binop _ _ l r => okT cfg l && okT cfg r && pairsOkT cfg "BinOp" [("left", l), ("right", r)]
+  | .compare _ l _ rs => okT cfg l && okTs cfg rs && pairsOkT cfg "Compare" (("left", l) :: tag "comparators" rs)
+  | .seq _ .set es _ => okTs cfg es && pairsOkT cfg "Set" (tag "elts" es)
+  | .seq _ .tuple es c => okTs cfg es && c != .store && pairsOkT cfg "Tuple" (tag "elts" es)
+  | .seq _ .list es c => okTs cfg es && c != .store && pairsOkT cfg "List" (tag "elts" es)
+  | .namedexpr _ _ v => okT cfg v
+  | _ => true
+def okTs (cfg : Config) : List Expr → Bool
+  | [] => true
+  | e :: es => okT cfg e && okTs cfg es
+end
+
+end Malt.Anf
